@@ -118,6 +118,11 @@ def client_runs(run, n, props):
         run.case(case, bool(lhs or rhs or stop))
         run.count("api bootstrap " + mode)
         if mode == "invalid":
+            if res.get("raises") == "ModelNotEnoughSubunitsException":
+                # the minimum-units gate of the client comes before the model ever sees the call lists: the run is refused for that
+                # reason (no table is produced that could contradict a call) - not a case of this clause
+                run.count("api bootstrap invalid calls: refused by the minimum-units gate first")
+                continue
             if "C07" in props and res.get("raises") != "BootstrapElectionModelException":
                 run.violation("contradictory / unknown race calls were not rejected by the estimate run", input=case,
                               impl=res.get("raises", "completed"), predicate="format_error_iff", signature="C07:api-invalid",
